@@ -528,6 +528,9 @@ NvmModule *nvm_deserialize(const uint8_t *data, uint32_t size) {
         mod->sections[i].size   = sec_size;
 
         const uint8_t *sec_data = data + sec_offset;
+        /* A table section must consist of whole entries: an entry that overruns
+         * the section, or bytes left over after the last entry, refuse the file. */
+        bool malformed = false;
 
         switch (sec_type) {
             case NVM_SECTION_STRINGS: {
@@ -535,10 +538,11 @@ NvmModule *nvm_deserialize(const uint8_t *data, uint32_t size) {
                 while (pos + 4 <= sec_size) {
                     uint32_t slen = le_read_u32(sec_data + pos);
                     pos += 4;
-                    if (slen > sec_size - pos) break;
+                    if (slen > sec_size - pos) { malformed = true; break; }
                     nvm_add_string(mod, (const char *)(sec_data + pos), slen);
                     pos += slen;
                 }
+                if (pos != sec_size) malformed = true;
                 break;
             }
 
@@ -559,6 +563,7 @@ NvmModule *nvm_deserialize(const uint8_t *data, uint32_t size) {
                     fn.upvalue_count = le_read_u16(sec_data + pos);     pos += 2;
                     nvm_add_function(mod, &fn);
                 }
+                if (pos != sec_size) malformed = true;
                 break;
             }
 
@@ -569,6 +574,7 @@ NvmModule *nvm_deserialize(const uint8_t *data, uint32_t size) {
                     uint32_t line   = le_read_u32(sec_data + pos); pos += 4;
                     nvm_add_debug_entry(mod, bc_off, line);
                 }
+                if (pos != sec_size) malformed = true;
                 break;
             }
 
@@ -579,7 +585,7 @@ NvmModule *nvm_deserialize(const uint8_t *data, uint32_t size) {
                         uint32_t new_cap = mod->import_capacity * 2;
                         NvmImportEntry *new_imp = realloc(mod->imports, new_cap * sizeof(NvmImportEntry));
                         uint8_t **new_pt = realloc(mod->import_param_types, new_cap * sizeof(uint8_t *));
-                        if (!new_imp || !new_pt) break;
+                        if (!new_imp || !new_pt) { malformed = true; break; }
                         mod->imports = new_imp;
                         mod->import_param_types = new_pt;
                         mod->import_capacity = new_cap;
@@ -591,7 +597,7 @@ NvmModule *nvm_deserialize(const uint8_t *data, uint32_t size) {
                     mod->imports[idx].param_count        = le_read_u16(sec_data + pos); pos += 2;
                     mod->imports[idx].return_type        = sec_data[pos++];
 
-                    if (pos + mod->imports[idx].param_count > sec_size) break;
+                    if (pos + mod->imports[idx].param_count > sec_size) { malformed = true; break; }
 
                     if (mod->imports[idx].param_count > 0) {
                         mod->import_param_types[idx] = malloc(mod->imports[idx].param_count);
@@ -605,12 +611,18 @@ NvmModule *nvm_deserialize(const uint8_t *data, uint32_t size) {
                     pos += mod->imports[idx].param_count;
                     mod->import_count++;
                 }
+                if (pos != sec_size) malformed = true;
                 break;
             }
 
             default:
                 /* Unknown section type - skip */
                 break;
+        }
+
+        if (malformed) {
+            nvm_module_free(mod);
+            return NULL;
         }
     }
 
